@@ -25,6 +25,8 @@ CATALOGUE = {
     "R13": "integer literal / cast typing made explicit where Verus cannot infer it",
     "R14": "method-call / operator syntax on foreign or generic types becomes a call of the named (extracted or modelled) function",
     "R15": "a function-local `const X: T = E;` becomes `let X: T = E;`",
+    "R16": "a local variable named like a Verus built-in type (`int`, `nat`) is renamed",
+    "R17": "the tail expression E of a function becomes `let vx_ret = E; vx_ret`",
 }
 
 
@@ -563,6 +565,163 @@ def r_trait_fn_calls(sig, body, arg):
     return sig, body, n
 
 
+def r_chunks_chain(sig, body, arg):
+    """R7: `RECV.iter()[.skip(A)][.take(B)].chunks(W).into_iter()(.map(F))* TERMINAL` over a BitVec
+    becomes a loop over the model's chunks, hoisted before the enclosing statement:
+        let mut vx_cvK = Vec::new();
+        for vx_c in 0..RECV.vx_nchunks(A, B, W) { let vx_ch = RECV.vx_chunk(A, B, vx_c, W); ...; push }
+    map stages: a closure `|P| BODY` binds P to the previous value and evaluates BODY (block or
+    expression); a path `F` is applied as `F(prev)`; `BitVec::from_iter` is the identity on a model
+    chunk.  TERMINAL is `.collect_vec()` or `.collect::<Result<Vec<T>, _>>()?` (early `return Err`)."""
+    n = 0
+    pos = 0
+    while True:
+        m = re.search(r"\.chunks\(", body[pos:])
+        if not m:
+            break
+        cpos = pos + m.start()
+        # walk back to `.iter()` and the receiver
+        head = body[:cpos]
+        hm = list(re.finditer(r"([\w.]+?)\s*\.iter\(\)((?:\s*\.(?:skip|take)\((?:[^()]|\([^()]*\))*\))*)\s*$", head))
+        if not hm:
+            pos = cpos + 1
+            continue
+        h = hm[-1]
+        recv = h.group(1)
+        r0 = h.start(1)
+        skip_e, take_e = "0", "usize::MAX"
+        for sm in re.finditer(r"\.(skip|take)\(((?:[^()]|\([^()]*\))*)\)", h.group(2)):
+            if sm.group(1) == "skip":
+                skip_e = sm.group(2)
+            else:
+                take_e = sm.group(2)
+        o = cpos + len(".chunks")
+        c = _match_paren(body, o)
+        w = body[o + 1:c]
+        k = c + 1
+        mm = re.match(r"\s*\.into_iter\(\)", body[k:])
+        if not mm:
+            pos = cpos + 1
+            continue
+        k += mm.end()
+        stages = []
+        while True:
+            mm = re.match(r"\s*\.map\(", body[k:])
+            if not mm:
+                break
+            o2 = k + mm.end() - 1
+            c2 = _match_paren(body, o2)
+            stages.append(body[o2 + 1:c2].strip())
+            k = c2 + 1
+        mm = re.match(r"\s*\.collect_vec\(\)", body[k:])
+        result_mode = False
+        if mm:
+            k += mm.end()
+        else:
+            mm = re.match(r"\s*\.collect::<Result<Vec<[^>]*>,\s*_>>\(\)\?", body[k:])
+            if not mm:
+                pos = cpos + 1
+                continue
+            result_mode = True
+            k += mm.end()
+        n += 1
+        vec = "vx_cv%d" % n
+        lines = ["let mut %s = Vec::new();" % vec,
+                 "    let vx_nch%d = %s.vx_nchunks(%s, %s, %s);" % (n, recv, skip_e, take_e, w),
+                 "    for vx_c in 0..vx_nch%d {" % n,
+                 "        let vx_ch = %s.vx_chunk(%s, %s, vx_c, %s);" % (recv, skip_e, take_e, w)]
+        prev = "vx_ch"
+        for j, st in enumerate(stages):
+            cm = re.match(r"\|\s*([^|]+?)\s*\|\s*(.*)$", st, re.S)
+            if cm:
+                lines.append("        let %s = %s;" % (cm.group(1), prev))
+                lines.append("        let vx_t%d = %s;" % (j, cm.group(2).strip()))
+            elif st == "BitVec::from_iter":
+                lines.append("        let vx_t%d = %s;" % (j, prev))
+            else:
+                lines.append("        let vx_t%d = %s(%s);" % (j, st, prev))
+            prev = "vx_t%d" % j
+        if result_mode:
+            lines.append("        match %s {\n            Ok(vx_ok) => { %s.push(vx_ok); }\n            Err(vx_e) => { return Err(vx_e); }\n        }" % (prev, vec))
+        else:
+            lines.append("        %s.push(%s);" % (vec, prev))
+        lines.append("    }\n    ")
+        pre = "\n".join(lines)
+        st0 = _stmt_start(body, r0)
+        body = body[:st0] + pre + body[st0:r0] + vec + body[k:]
+        pos = st0 + len(pre)
+    return sig, body, n
+
+
+def r_for_in_bitvec(sig, body, arg):
+    """R6: `for B in <arg> {` over a BitVec value -> `for vx_b in 0..<arg>.len() { let B = <arg>.idx(vx_b);`"""
+    body, n = _sub(r"for\s+(\w+)\s+in\s+%s\s*\{" % re.escape(arg),
+                   r"for vx_b in 0..%s.len() {\n                let \1 = %s.idx(vx_b);" % (arg, arg), body)
+    return sig, body, n
+
+
+def r_rename_local(sig, body, arg):
+    """R16: a local variable whose name is a Verus built-in type name (`int`, `nat`) is renamed
+    `<name>_` (declaration and every use in the function)."""
+    body, n = _sub(r"(?<![\w.:])%s\b(?!\s*\()" % re.escape(arg), arg + "_", body)
+    return sig, body, n
+
+
+def r_rev_range(sig, body, arg):
+    """R4 (+R13 when a literal type suffix is given as argument): `for I in (A..B).rev() {` ->
+    `for vx_r in A..B { let I = (B) - 1 - (vx_r - (A));`"""
+    suf = arg or ""
+    body, n = _sub(r"for\s+(\w+)\s+in\s+\((\w+)\.\.(\w+)\)\.rev\(\)\s*\{",
+                   r"for vx_r in \2%s..\3%s {\n                let \1 = \3%s - 1 - (vx_r - \2%s);" % (suf, suf, suf, suf), body)
+    return sig, body, n
+
+
+def r_iter_loop(sig, body, arg):
+    """R4/R4b: `for [&]X in RECV.iter() {` over Copy elements -> `for vx_i in 0..RECV.len() { let X = RECV[vx_i];`
+    and a leading `*X` inside the loop body becomes `X`."""
+    from . import extract as X
+    pat = re.compile(r"for\s+&?(\w+)\s+in\s+([\w.]+?)\.iter\(\)\s*\{")
+    n = 0
+    while True:
+        m = pat.search(body)
+        if not m:
+            break
+        bo = m.end() - 1
+        bc = X.match_brace(X.mask(body), bo)
+        inner, _ = _strip_deref(body[bo + 1:bc], [m.group(1)])
+        body = (body[:m.start()] + "for vx_i in 0..%s.len() {\n            let %s = %s[vx_i];" % (m.group(2), m.group(1), m.group(2))
+                + inner + body[bc:])
+        n += 1
+    return sig, body, n
+
+
+def r_tail_let(sig, body, arg):
+    """R17: the function's tail expression `E` (not itself a block expression) becomes
+    `let vx_ret = E; vx_ret` so that a proof block can mention the returned value."""
+    from . import extract as X
+    masked = X.mask(body)
+    end = masked.rstrip().rfind("}")
+    k = end - 1
+    while k > 0 and masked[k] in " \t\n":
+        k -= 1
+    if masked[k] in "};":
+        return sig, body, 0
+    depth = 0
+    while k > 0:
+        ch = masked[k]
+        if ch in ")]":
+            depth += 1
+        elif ch in "([":
+            depth -= 1
+        elif ch in ";{}" and depth == 0:
+            break
+        k -= 1
+    expr = body[k + 1:end].strip()
+    if not expr or expr.startswith("let "):
+        return sig, body, 0
+    return sig, body[:k + 1] + "\n        let vx_ret = " + expr + ";\n        vx_ret\n    " + body[end:], 1
+
+
 RULES = {
     "Self": r_self,
     "Generic": r_generic,
@@ -584,6 +743,12 @@ RULES = {
     "PolyTailExpr": r_poly_tail_expr,
     "TableRefs": r_table_refs,
     "TraitFnCalls": r_trait_fn_calls,
+    "ChunksChain": r_chunks_chain,
+    "ForInBitVec": r_for_in_bitvec,
+    "RenameLocal": r_rename_local,
+    "RevRange": r_rev_range,
+    "IterLoop": r_iter_loop,
+    "TailLet": r_tail_let,
 }
 RULE_IDS = {"Self": "R1", "Generic": "R1", "BoolAssign": "R2", "ForUnderscore": "R3",
             "BitVecIndex": "R6"}
